@@ -36,6 +36,25 @@ pub struct RunOut {
     pub pay_ok: bool,
 }
 
+/// When the octets after the end tag are a message themselves (the corpus chains two messages on one stream):
+/// what a fresh blocking parser reads from them - (header+groups, octets after it).  The returned reader of
+/// `parse_parts` is then asked for that second message (C06: positioned on precisely the first octet after the end tag).
+fn second_message(payload: &[u8]) -> Option<(J, Vec<u8>)> {
+    if payload.len() < 9 || payload[0] == 0 || payload[0] > 2 {
+        return None;
+    }
+    let cur = std::io::Cursor::new(payload.to_vec());
+    match catch_unwind(AssertUnwindSafe(|| IppParser::new(IppReader::new(cur)).parse_parts())) {
+        Ok(Ok((h, a, reader))) => {
+            let mut tail = vec![];
+            let mut inner = reader.into_inner();
+            let _ = inner.read_to_end(&mut tail);
+            Some((json!({"hdr": header_json(&h), "groups": groups_json(&a)}), tail))
+        }
+        _ => None,
+    }
+}
+
 fn payload_after(data: &[u8], endv: usize) -> Vec<u8> {
     if endv > 0 && endv <= data.len() {
         data[endv..].to_vec()
@@ -46,6 +65,7 @@ fn payload_after(data: &[u8], endv: usize) -> Vec<u8> {
 
 pub fn run_sync(data: Arc<Vec<u8>>, script: Vec<Step>, default_chunk: usize, parts: bool, endv: usize, log_reads: bool) -> RunOut {
     let expect = payload_after(&data, endv);
+    let expect2 = expect.clone();
     let (src, sh) = Scripted::new(data, script, default_chunk, log_reads);
     let sh_pos = sh.pos.clone();
     let sh_reach = sh.reach.clone();
@@ -60,8 +80,25 @@ pub fn run_sync(data: Arc<Vec<u8>>, script: Vec<Step>, default_chunk: usize, par
                     let consumed = *sh_pos.lock().unwrap();
                     let reach = *sh_reach.lock().unwrap();
                     let mut rest = vec![];
-                    let mut inner = reader.into_inner();
-                    let _ = inner.read_to_end(&mut rest);
+                    if let Some(refm) = second_message(&expect2) {
+                        // the octets after the end tag are a message themselves: read it from the reader that was handed back
+                        match IppParser::new(reader).parse_parts() {
+                            Ok((h2, a2, reader2)) => {
+                                let mut tail = vec![];
+                                let mut inner = reader2.into_inner();
+                                let _ = inner.read_to_end(&mut tail);
+                                if json!({"hdr": header_json(&h2), "groups": groups_json(&a2)}) == refm.0 && tail == refm.1 {
+                                    rest = expect2.clone();
+                                } else {
+                                    rest = b"second message differs".to_vec();
+                                }
+                            }
+                            Err(_) => rest = b"second message rejected".to_vec(),
+                        }
+                    } else {
+                        let mut inner = reader.into_inner();
+                        let _ = inner.read_to_end(&mut rest);
+                    }
                     (json!({"ok": true, "msg": {"hdr": header_json(&h), "groups": groups_json(&attrs)}}), log, consumed, reach, Some(rest))
                 }
                 Err(e) => {
@@ -106,6 +143,7 @@ pub fn run_sync(data: Arc<Vec<u8>>, script: Vec<Step>, default_chunk: usize, par
 
 pub fn run_async(data: Arc<Vec<u8>>, script: Vec<Step>, default_chunk: usize, parts: bool, endv: usize, log_reads: bool) -> RunOut {
     let expect = payload_after(&data, endv);
+    let expect2 = expect.clone();
     let (src, sh) = Scripted::new(data, script, default_chunk, log_reads);
     let sh_pos = sh.pos.clone();
     let sh_reach = sh.reach.clone();
@@ -124,10 +162,27 @@ pub fn run_async(data: Arc<Vec<u8>>, script: Vec<Step>, default_chunk: usize, pa
                     let log = snapshot(&sh_log);
                     let consumed = *sh_pos.lock().unwrap();
                     let reach = *sh_reach.lock().unwrap();
-                    let mut inner = reader.into_inner();
                     let mut rest = vec![];
-                    // the scripted source is also a blocking reader
-                    let _ = Read::read_to_end(&mut inner, &mut rest);
+                    if let Some(refm) = second_message(&expect2) {
+                        let fut2 = AsyncIppParser::new(reader).parse_parts();
+                        match run_scripted(fut2, &sh2, 10_000_000) {
+                            ExecOut::Done(Ok((h2, a2, reader2))) => {
+                                let mut tail = vec![];
+                                let mut inner = reader2.into_inner();
+                                let _ = Read::read_to_end(&mut inner, &mut tail);
+                                if json!({"hdr": header_json(&h2), "groups": groups_json(&a2)}) == refm.0 && tail == refm.1 {
+                                    rest = expect2.clone();
+                                } else {
+                                    rest = b"second message differs".to_vec();
+                                }
+                            }
+                            _ => rest = b"second message rejected".to_vec(),
+                        }
+                    } else {
+                        let mut inner = reader.into_inner();
+                        // the scripted source is also a blocking reader
+                        let _ = Read::read_to_end(&mut inner, &mut rest);
+                    }
                     (json!({"ok": true, "msg": {"hdr": header_json(&h), "groups": groups_json(&attrs)}}), log, consumed, reach, Some(rest))
                 }
                 ExecOut::Done(Err(e)) => (err_json(&e), snapshot(&sh_log), *sh_pos.lock().unwrap(), *sh_reach.lock().unwrap(), None),
@@ -563,8 +618,17 @@ pub fn run(a: &Args) {
                     }
                     continue;
                 }
-                for pv in 0..5usize {
+                for pv in 0..6usize {
                     let payload: Vec<u8> = match pv {
+                        5 => {
+                            // two messages back to back on one stream, then a tail
+                            let mut p = corp[(mi + 1) % corp.len()].1.clone();
+                            if p.len() > 2000 {
+                                continue;
+                            }
+                            p.extend_from_slice(b"\x03tail");
+                            p
+                        }
                         0 => vec![],
                         1 => vec![3],
                         2 => vec![1, 0x21, 0, 0, 3, 0x34, 0x4a, 0x37, 3, 3, 2, 0x44],
@@ -603,7 +667,7 @@ pub fn run(a: &Args) {
                                 cx.run(&mid, "async", &data, sa, usize::MAX, i % 8 == 0, endv, "composition + not-ready");
                             }
                         }
-                    } else if pv <= 3 {
+                    } else if pv <= 3 || pv == 5 {
                         for c in [2usize, 3, 5, 7, 16, 255, 256, 1000, 4095, 4097, 10000] {
                             let chunks: Vec<usize> = vec![c; n / c + 2];
                             cx.run(&mid, "sync", &data, with_intrs(&chunks, c, &mut r), usize::MAX, c % 2 == 0, endv, "uniform chunks + interrupts");
